@@ -179,7 +179,11 @@ func (v *value) updateTimestamp() error {
 	if max-min+1 <= 0 {
 		return fmt.Errorf("delta_max - delta_min overflows int64 on timestamp for %q", v.v)
 	}
-	v.v.Timestamp.Timestamp = t + v.r.Int63n(max-min+1) + min
+	nt := t + v.r.Int63n(max-min+1) + min
+	if nt < t {
+		return fmt.Errorf("timestamp overflows int64 for %q", v.v)
+	}
+	v.v.Timestamp.Timestamp = nt
 	return nil
 }
 
